@@ -277,6 +277,9 @@ func newC05e2e(n int, idx map[string]int) *c05e2e {
 	if err := inst.ParseTemplates(); err != nil {
 		panic(err)
 	}
+	// the controller hands Config() to the converters before every HAProxyUpdate; without it
+	// HAProxyUpdate returns at once ("nil config, just ignore")
+	_ = inst.Config()
 	return &c05e2e{n: n, dir: dir, inst: inst, idx: idx, q: q}
 }
 
@@ -537,6 +540,11 @@ func c05corpus(c *ctx) {
 		c05case(c, "api", n, nm, sp("a0.1.0,r0,u"))
 		c05case(c, "api", n, nm, sp("a0.1.0,u,r0,c,u"))
 		c05case(c, "api", n, nm, sp("a0.1.0,k,u"))
+	}
+	for _, n := range []int{1, 3, 0} {
+		// finding stale-backend-on-disk-noop-update (repaired): a batch that only removes a backend
+		c05case(c, "e2e", n, c05names(n, 2), sp("a0.2.1,a1.3.0,u,r0,u"))
+		c05case(c, "e2e", n, c05names(n, 2), sp("a0.2.1,a1.3.0,u,r0,u,r1,u,u"))
 	}
 	for _, n := range []int{3, 0} {
 		nm := c05names(n, 3)
